@@ -453,14 +453,14 @@ def _vmaxv_u32(I, fr, callee, args, dest, argops, line):
 @neon('vld1q_f32', 'vld1q_u32')
 def _vld1q(I, fr, callee, args, dest, argops, line):
     obj, off = _mem_ptr(I, args[0])
-    I.mem_events.append(('load', fr.body['d'], line, obj.id, off, 16, 1, tuple(I.pathcond), 'vld1q'))
+    I.mem_events.append(('load', fr.body['d'], line, obj.id, off, 16, 1, dict(tm.ASSUME_LB), 'vld1q'))
     return vec([I.read(obj, off + 4 * i, 4, None) for i in range(4)], 4)
 
 
 @neon('vld1q_dup_f32')
 def _vld1q_dup(I, fr, callee, args, dest, argops, line):
     obj, off = _mem_ptr(I, args[0])
-    I.mem_events.append(('load', fr.body['d'], line, obj.id, off, 4, 1, tuple(I.pathcond), 'vld1q_dup_f32'))
+    I.mem_events.append(('load', fr.body['d'], line, obj.id, off, 4, 1, dict(tm.ASSUME_LB), 'vld1q_dup_f32'))
     v = I.read(obj, off, 4, None)
     return vec([v] * 4, 4)
 
@@ -468,7 +468,7 @@ def _vld1q_dup(I, fr, callee, args, dest, argops, line):
 @neon('vst1q_f32', 'vst1q_u32')
 def _vst1q(I, fr, callee, args, dest, argops, line):
     obj, off = _mem_ptr(I, args[0])
-    I.mem_events.append(('store', fr.body['d'], line, obj.id, off, 16, 1, tuple(I.pathcond), 'vst1q'))
+    I.mem_events.append(('store', fr.body['d'], line, obj.id, off, 16, 1, dict(tm.ASSUME_LB), 'vst1q'))
     ls = lanes(I, args[1], 4, 4)
     for i in range(4):
         I.write(obj, off + 4 * i, 4, ls[i])
@@ -599,7 +599,7 @@ def _w_all(I, fr, callee, args, dest, argops, line):
 @wasm('v128_store')
 def _w_store(I, fr, callee, args, dest, argops, line):
     obj, off = _mem_ptr(I, args[0])
-    I.mem_events.append(('store', fr.body['d'], line, obj.id, off, 16, 1, tuple(I.pathcond), 'v128_store'))
+    I.mem_events.append(('store', fr.body['d'], line, obj.id, off, 16, 1, dict(tm.ASSUME_LB), 'v128_store'))
     ls = lanes(I, args[1], 4, 4)
     for i in range(4):
         I.write(obj, off + 4 * i, 4, ls[i])
@@ -609,13 +609,13 @@ def _w_store(I, fr, callee, args, dest, argops, line):
 @wasm('v128_load')
 def _w_load(I, fr, callee, args, dest, argops, line):
     obj, off = _mem_ptr(I, args[0])
-    I.mem_events.append(('load', fr.body['d'], line, obj.id, off, 16, 1, tuple(I.pathcond), 'v128_load'))
+    I.mem_events.append(('load', fr.body['d'], line, obj.id, off, 16, 1, dict(tm.ASSUME_LB), 'v128_load'))
     return vec([I.read(obj, off + 4 * i, 4, None) for i in range(4)], 4)
 
 
 @wasm('v128_load32_splat')
 def _w_load_splat(I, fr, callee, args, dest, argops, line):
     obj, off = _mem_ptr(I, args[0])
-    I.mem_events.append(('load', fr.body['d'], line, obj.id, off, 4, 1, tuple(I.pathcond), 'v128_load32_splat'))
+    I.mem_events.append(('load', fr.body['d'], line, obj.id, off, 4, 1, dict(tm.ASSUME_LB), 'v128_load32_splat'))
     v = I.read(obj, off, 4, None)
     return vec([v] * 4, 4)
